@@ -221,8 +221,9 @@ namespace {
     Options o;
     o.name = "drucker";
     o.eig = false;
-    // J2^3 - c J3^2 >= J2^3 (1 - 4 c/27): at least 2/3 J2^3; powers up to 6: factor 8
-    o.amp = 8;
+    // J2^3 - c J3^2 >= J2^3 (1 - 4 c/27): at least 2/3 J2^3; powers up to 6 and the
+    // products J2^3, J3^2 of rounded invariants: factor 16
+    o.amp = 16;
     o.secondKeySuffix = druckerClass(cc, refJ3(st.sig), refJ2(st.sig));
     c.tag("drucker" + o.secondKeySuffix);
     checkAll<N>(c, Drucker{cc}, st, o);
@@ -230,7 +231,7 @@ namespace {
       // Drucker(c=0) = sqrt(3 J2) = von Mises
       const auto s = toS<N>(st.sig);
       c.close(Drucker{0.}.template value<N>(s, 0.), ref::vonMises(st.sig),
-              512 * 8 * st.Einv() * st.vm, "C22.drucker.c0_is_mises", "Drucker(c=0) vs sqrt(3 J2)");
+              512 * 16 * st.Einv() * st.vm, "C22.drucker.c0_is_mises", "Drucker(c=0) vs sqrt(3 J2)");
     }
   }
 
